@@ -57,6 +57,11 @@ impl Resolver<'_> {
                         self.infer_table_column(&table_ident, col_name)?;
                     }
                     _ => {
+                        // (the sets are printed in sorted order, so that the message is stable)
+                        let wildcard_inputs = wildcard_inputs
+                            .iter()
+                            .map(|(id, except)| (id, except.iter().sorted().collect_vec()))
+                            .collect_vec();
                         return Err(format!("Cannot infer where {table_ident}.{col_name} is from. It could be any of {wildcard_inputs:?}"))
                     }
                 }
